@@ -369,6 +369,12 @@ ares_status_t ares_dns_name_write(ares_buf_t *buf, ares_llist_t **list,
     return ARES_EFORMERR; /* LCOV_EXCL_LINE: DefensiveCoding */
   }
 
+  /* ares_strcpy() below truncates, a longer name would silently be written as
+   * some other (shorter) name */
+  if (ares_strlen(name) >= sizeof(name_copy)) {
+    return ARES_EBADNAME;
+  }
+
   labels = ares_array_create(sizeof(ares_buf_t *), ares_dns_labels_free_cb);
   if (labels == NULL) {
     return ARES_ENOMEM;
